@@ -234,6 +234,12 @@ class Trace:
             res = m.group(2)
             self.steps.append((mv, res, m.group(3)))
             c = mv[0]
+            if c == "b":
+                # burst: the completed sends of its sub-moves are part of the input
+                for sm, sr in zip(mv[1:].split(","), res.split(",")):
+                    if sm and sm[0] == "s" and sr == "ok":
+                        j, v = (sm[1:].split(":") + [None])[:2] if ":" in sm else ("0", sm[1:])
+                        self.sent.setdefault(int(j), []).append(int(v))
             if c == "s":
                 j, v = (mv[1:].split(":") + [None])[:2] if ":" in mv else ("0", mv[1:])
                 if res == "ok":
